@@ -299,10 +299,29 @@ def inline_simple_helpers(fnode, resolve, depth=2):
             return None
         name = call.func.attr if isinstance(call.func, ast.Attribute) else call.func.id
         h = resolve(name)
-        if h is None or call.keywords:
+        if h is None or any(k_.arg is None for k_ in call.keywords) or \
+                h.args.vararg or h.args.kwarg or h.args.kwonlyargs or \
+                any(isinstance(a, ast.Starred) for a in call.args):
             return None
         params = [a.arg for a in h.args.args]
         args = list(call.args)
+        if call.keywords or len(h.args.defaults):
+            # bind keywords by name and omitted trailing parameters to defaults
+            dflt = dict(zip(params[len(params) - len(h.args.defaults):],
+                            h.args.defaults))
+            kw = {k_.arg: k_.value for k_ in call.keywords}
+            implicit = 1 if params and params[0] in ("self", "cls") and not (
+                isinstance(call.func, ast.Name)) else 0
+            rest = params[implicit + len(args):]
+            if set(kw) - set(rest):
+                return None
+            for p_ in rest:
+                if p_ in kw:
+                    args.append(kw[p_])
+                elif p_ in dflt:
+                    args.append(dflt[p_])
+                else:
+                    return None
         is_static = any(ast.unparse(d) in ("staticmethod", "classmethod")
                         for d in h.decorator_list)
         if params and params[0] in ("self", "cls") and len(params) == len(args) + 1:
@@ -413,6 +432,15 @@ def inline_simple_helpers(fnode, resolve, depth=2):
                 isinstance(v_, ast.Name) and v_.id.startswith("_h"))}
             aliased = alias(st.target, g.body[-1].value.value, mapping, params)
             pre = [subst(b, mapping) for b in g.body[:-1]]
+            # leaving the generator ends the iteration: `return` there is `break`
+
+            class _RetToBreak(ast.NodeTransformer):
+                def visit_Return(self, n):
+                    return ast.copy_location(ast.Break(), n) if n.value is None else n
+
+                def visit_FunctionDef(self, n):
+                    return n
+            pre = [_RetToBreak().visit(b) for b in pre]
             bind = [] if aliased else [ast.Assign(
                 targets=[copy.deepcopy(st.target)],
                 value=subst(g.body[-1].value.value, mapping))]
@@ -504,3 +532,27 @@ def private_closure(prog, C, roots):
                 if g is not None and g not in out:
                     work.append(g)
     return out
+
+
+def const_seq(expr, cls=None, classes=None):
+    """[constants] when expr is a tuple/list/set literal of constants or a
+    class-level name (self.X / cls.X / Class.X) bound to one; else None."""
+    if isinstance(expr, (ast.Tuple, ast.List, ast.Set)) and all(
+            isinstance(x, ast.Constant) for x in expr.elts):
+        return [x.value for x in expr.elts]
+    if isinstance(expr, ast.Attribute) and isinstance(expr.value, ast.Name):
+        mro = []
+        if classes and expr.value.id in classes:
+            mro = classes[expr.value.id].mro
+        elif cls is not None:
+            mro = cls.mro
+        for c in mro:
+            for st in c.node.body:
+                tgt = val = None
+                if isinstance(st, ast.Assign) and len(st.targets) == 1:
+                    tgt, val = st.targets[0], st.value
+                elif isinstance(st, ast.AnnAssign):
+                    tgt, val = st.target, st.value
+                if isinstance(tgt, ast.Name) and tgt.id == expr.attr and val is not None:
+                    return const_seq(val, cls, classes)
+    return None
